@@ -21,7 +21,10 @@ RULE = ('Hypothesis: FileSpec (1-4 dims len 1-4, 1-5 variables rank 0-3 incl.'
         'classic flavours plus i8 u1 u2 u4 u8 for NETCDF4; masked variables '
         'with the fill declared through fill_value / missing_value / '
         '_FillValue or combinations (equal or different values); str/int/float/numpy-scalar/'
-        'array attributes; special floats -0.0 inf nan denormal) x flavour '
+        'array attributes whose names come from a pool, from short names '
+        '(type, code, dim, n, ...) and from generated identifiers, excluding '
+        'names reserved by numpy/netCDF4/PseudoNetCDF objects and leading '
+        'underscores; special floats -0.0 inf nan denormal) x flavour '
         '(NETCDF3_CLASSIC, NETCDF3_64BIT_OFFSET, NETCDF4_CLASSIC, NETCDF4) x '
         'complevel {0,1,9} x reopen route (auto-detect / format=netcdf). '
         'Classic flavours: at most one unlimited dimension, leading in every '
@@ -39,7 +42,7 @@ ASSUMPTIONS = ['netCDF4-python/libnetcdf store and return what they are '
                'given', 'an unlimited dimension not used by any variable is '
                'not representable in netCDF (its length is defined by data) '
                'and is not generated']
-BUDGET = {'quick': dict(examples=960, max_s=300),
+BUDGET = {'quick': dict(examples=2400, max_s=300),
           'thorough': dict(examples=16000, max_s=3000)}
 
 CLASSIC = ('NETCDF3_CLASSIC', 'NETCDF3_64BIT_OFFSET', 'NETCDF4_CLASSIC')
@@ -70,6 +73,63 @@ def _elems(code, special):
     if code[0] == 'u':
         return st.integers(0, 1000)
     return st.integers(-1000, 1000)
+
+
+_RESERVED = None
+
+
+def reserved_names():
+    """names that cannot be used as attribute names on the in-memory
+    objects (methods/properties of ndarray, MaskedArray, the PseudoNetCDF
+    classes and netCDF4 objects) or that netCDF4 gives a meaning of its own
+    (auto scaling / masking)"""
+    global _RESERVED
+    if _RESERVED is None:
+        import netCDF4
+        from PseudoNetCDF import PseudoNetCDFFile
+        from PseudoNetCDF.core._variables import (PseudoNetCDFVariable,
+                                                  PseudoNetCDFMaskedVariable)
+        r = set()
+        for o in (np.ndarray, np.ma.MaskedArray, PseudoNetCDFVariable,
+                  PseudoNetCDFMaskedVariable, PseudoNetCDFFile,
+                  netCDF4.Variable, netCDF4.Dataset):
+            r.update(dir(o))
+        r.update(['typecode', 'dimensions', 'variables', 'groups',
+                  'scale_factor', 'add_offset', 'missing_value', 'valid_min',
+                  'valid_max', 'valid_range', 'fill_value', '_FillValue',
+                  'calendar', 'units', 'name', 'format', 'path', 'parent',
+                  'datatype', 'dtype', 'scale', 'mask', 'always_mask',
+                  'chartostring', 'auto_complex'])
+        _RESERVED = r
+    return _RESERVED
+
+
+SHORT_NAMES = ['type', 'code', 'dim', 'n', 'od', 'dims', 'desc', 't1', 'a_b',
+               'Title', 'ID', 'k', 'ns', 'io', 'me', 'ens', 'typ', 'sion']
+
+
+@st.composite
+def attr_dict(draw, pool, maxn):
+    """attribute dictionary with names from the fixed pool, from a list of
+    short names (incl. substrings of words the writer treats specially) and
+    freely generated identifiers"""
+    n = draw(st.integers(0, maxn))
+    out = {}
+    for _ in range(n):
+        kind = draw(st.integers(0, 3))
+        if kind == 0:
+            k = draw(st.sampled_from(SHORT_NAMES))
+        elif kind == 1:
+            k = draw(st.text(alphabet='abcdefghijklmnopqrstuvwxyz',
+                             min_size=1, max_size=6))
+            if draw(st.booleans()):
+                k = k + draw(st.sampled_from(['_1', '2', '_x', 'Z']))
+        else:
+            k = draw(st.sampled_from(pool))
+        if k in reserved_names() or k.startswith('_') or k in out:
+            continue
+        out[k] = draw(S.attr_values())
+    return out
 
 
 @st.composite
@@ -130,7 +190,7 @@ def cases(draw, tier='quick'):
         variables.append(dict(name=name, dims=vd, dtype=code, data=data,
                               mask=mask, fill=fill, fillattrs=fillattrs,
                               coord=coord,
-                              attrs=draw(S._attrs({}, S.VAR_ATTRS, 3))))
+                              attrs=draw(attr_dict(S.VAR_ATTRS, 3))))
     # every unlimited dimension is used by at least one variable
     for u in unlset:
         if u not in used:
@@ -140,7 +200,7 @@ def cases(draw, tier='quick'):
             variables.append(dict(name='u_' + u, dims=[u], dtype=code,
                                   data=data, mask=None, fill=None,
                                   fillattrs={}, attrs={}))
-    gattrs = draw(S._attrs({}, S.GLOBAL_ATTRS, 4))
+    gattrs = draw(attr_dict(S.GLOBAL_ATTRS, 4))
     fs = dict(dims=[[n, l, u] for n, l, u in zip(names, lens, unl)],
               vars=variables, gattrs=gattrs)
     complevel = draw(st.sampled_from([0, 0, 1, 9])) if flavour.startswith(
